@@ -9,7 +9,7 @@ CONSTANTS
   MaxBatches = 0
   MaxBatchOps = 0
   Stops = {0, 1, 2}
-  Muts = {FALSE, TRUE}
+  Muts = {TRUE}
   Ops = {"Get", "Has", "Set", "Delete", "DeletePrefix", "Clear", "Flush", "Close", "Realm", "Batched", "Iterate", "IterateKeys", "WithRealm", "WithExtendedRealm", "BSet", "BDelete", "Cancel", "Commit"}
 VIEW View
 INVARIANTS TypeOK ClosedOK NotClosedOK GetOK HasOK SetOK IterOK StOK
